@@ -370,6 +370,65 @@ def existingShares (vals : List (DistValidator PK Sig)) (secrets : List SK) : Op
 
 end Glue
 
+/-! ### The cluster-changing protocols (`dkg/protocol*.go`, `dkg/protocolsteps.go`)
+
+Reshare / add operators / remove operators / replace operator all run `pedersen.RunReshareDKG`
+(algebra: `Props/C11.lean` `reshare_is_shamir`, `reshare_keeps_key`) and then
+`updateLockProtocolStep`, which assembles the new lock from the OLD lock's validators and the new
+shares. What differs between them is bookkeeping: the operator list, the threshold, under which key
+a node's new public share is filed in `share.Share.PublicShares` (`processKey`:
+`config.PeerMap[peer].ShareIdx`, the ORIGINAL share index) and at which point the new polynomial is
+evaluated for it (remove-only: compact `1..n'`). -/
+
+section Protocols
+variable {PK SK Sig : Type} [DecidableEq PK]
+
+/-- `updateLockProtocolStep`: `newLock.Validators = pctx.Lock.Validators` with
+`Validators[vi].PubShares = MsgFromShare(pctx.Shares[vi]).PubShares`; everything else of a validator
+(group key, deposit data, registration) is carried over. `none` = index out of range panic. -/
+def updateLockValidators (oldVals : List (DistValidator PK Sig)) (shares : List (Share PK SK)) :
+    Option (List (DistValidator PK Sig)) :=
+  if shares.length < oldVals.length then none
+  else some ((oldVals.zip shares).map fun vs => { vs.1 with pubShares := msgPubShares vs.2 })
+
+/-- `storeKeys` of `writeArtifactsProtocolStep`: keystore `i` holds the new secret of validator `i`. -/
+def storeKeys (shares : List (Share PK SK)) : List SK := shares.map (·.secret)
+
+/-- `cluster.Threshold`: `ceil(2n/3)`. -/
+def clusterThreshold (n : Nat) : Nat := (2 * n + 2) / 3
+
+variable {O : Type} [DecidableEq O]
+
+/-- add-operators: `allENRs = lock operators ++ new ENRs`. -/
+def addOperators (ops new : List O) : List O := ops ++ new
+
+/-- remove-operators `PostInit`: the operators that are not in `RemovingENRs`, in lock order. -/
+def removeOperators (ops removing : List O) : List O := ops.filter (fun o => !removing.contains o)
+
+/-- original share indices (1-based positions in the old lock) of the operators that stay: the keys
+of the new `PublicShares` maps and of `exchangerPeerMap`, and the share index a remaining node
+signs the new lock hash with. -/
+def remainingShareIdx (ops removing : List O) : List Nat :=
+  (List.range ops.length).filterMap fun i =>
+    match ops[i]? with
+    | some o => if removing.contains o then none else some (i + 1)
+    | none => none
+
+/-- remove-operators `PostInit`: the new threshold (`none` = "new-threshold is invalid"). -/
+def removeThreshold (n removed newT : Nat) : Option Nat :=
+  let newN := n - removed
+  let dflt := clusterThreshold newN
+  if newT ≠ 0 then (if newT ≥ newN ∨ newT < dflt then none else some newT) else some dflt
+
+/-- replace-operator `GetPeers`: the new ENR takes the position of the first operator with the old
+ENR (`none` = "old operator not found in lock"). -/
+def replaceOperator (ops : List O) (old new : O) : Option (List O) :=
+  match ops.idxOf? old with
+  | none => none
+  | some i => some (ops.set i new)
+
+end Protocols
+
 /-- `checkThreshold`. -/
 def checkThreshold (threshold numOperators : Nat) : Bool :=
   !(threshold < 2) && !(threshold > numOperators)
